@@ -354,7 +354,7 @@ _c08_us = (("family", 7), ("ZobristHasher4hash#0", 4), ("ZobristHasher4hash#1", 
 
 
 def _c08_inst(name, sub, tiers=("quick", "thorough"), timeout=3600, mem=12, bounds="", extra=()):
-    return Inst("c08::" + name, sub=sub, tiers=tiers, unwind=66, unwindset=_c08_us, nomem=True, timeout=timeout, mem_gb=mem, functions=_c08_fn, bounds=bounds, extra=extra)
+    return Inst("c08::" + name, sub=sub, tiers=tiers, unwind=66, unwindset=_c08_us, nomem=True, timeout=timeout, mem_gb=mem, functions=_c08_fn, stubs=GEO_STUBS, bounds=bounds, extra=extra)
 
 
 PLAN["C08"] = {
@@ -440,7 +440,7 @@ def prereq_c09(workdir):
     import vdriver
     core = REPO + "/weechess-core/src/"
     files = [core + f for f in ("attacks.rs", "board.rs", "common.rs", "utils.rs", "piece.rs", "color.rs", "lib.rs")]
-    files += [REPO + "/weechess-core/Cargo.toml", REPO + "/Cargo.lock"]
+    files += [REPO + "/weechess-core/Cargo.toml", vdriver.repo_lock()]
     files += [os.path.join(ROOT, f) for f in ("harness/core/src/c09.rs", "harness/core/src/lib.rs", "harness/common/geo.rs",
                                               "harness/common/shim.rs", "tools/tabledump/src/main.rs")]
     key = _sha(files)
@@ -463,7 +463,7 @@ def prereq_c09(workdir):
                    "stand in geometry for the lookups cannot be trusted; see ./check C09" % rc)
 
 
-for _p in ("C01", "C05", "C10", "C13"):
+for _p in ("C01", "C05", "C08", "C10", "C13"):
     PLAN[_p]["prereq"] = [prereq_c09]
 
 
